@@ -67,6 +67,9 @@ PApply(ps, o) ==
 (* claims of that object.                                                  *)
 (***************************************************************************)
 NoEdit == E("none", "", "")
+\* the protocol whose header a relabelled token of protocol pr carries in the parser histories: the next
+\* version of the same purpose (a header of the same length)
+RelabelTarget(pr) == <<(pr[1] % 4) + 1, pr[2]>>
 Tok(o, e, isjson, claims) == [o |-> o, e |-> e, json |-> isjson, claims |-> claims]
 WireOf(t) == IF t.e = NoEdit THEN MintWire(t.o) ELSE ApplyEdit(t.o, MintWire(t.o), t.e)
 
